@@ -48,7 +48,8 @@ def check_quote_axiom():
 async def verbatim(n):
     base_dir = os.path.realpath(tempfile.mkdtemp(prefix="c25."))
     local = LocalConnector(deployment_name="local", config_dir=tempfile.gettempdir())
-    conn = PlainConnector(deployment_name="base", config_dir=tempfile.gettempdir(), transferBufferSize=rng.choice([3, 64, 2 ** 16]))
+    # a tiny read buffer: chunk boundaries fall inside multi-byte characters and inside the end marker
+    conn = PlainConnector(deployment_name="base", config_dir=tempfile.gettempdir(), transferBufferSize=rng.choice([1, 2, 3, 5]))
     lloc = ExecutionLocation(deployment="local", name="__LOCAL__", local=True)
     bloc = ExecutionLocation(deployment="base", name="loc")
     try:
